@@ -16,6 +16,14 @@ func Assert_subroutine_called_Validate(args []value.Value) error {
 	if args[0].Type() != value.StringType {
 		return errors.TypeMismatch(Assert_subroutine_called_Name, 1, value.StringType, args[0].Type())
 	}
+	if len(args) == 3 { // (name, times, message)
+		if args[1].Type() != value.IntegerType {
+			return errors.TypeMismatch(Assert_subroutine_called_Name, 2, value.IntegerType, args[1].Type())
+		}
+		if args[2].Type() != value.StringType {
+			return errors.TypeMismatch(Assert_subroutine_called_Name, 3, value.StringType, args[2].Type())
+		}
+	}
 	return nil
 }
 
